@@ -7,43 +7,30 @@ import PgVerif.Model.ClusterHyp
 namespace PgVerif.Proofs.Cluster
 open PgVerif PgVerif.Model PgVerif.Model.ClusterHyp PgVerif.Spec PgVerif.Proofs List
 
-theorem toolAlignNat_eq (l : Layout) (a : AttrRow) : toolAlignNat l a = (toolAlignByte l a).toNat := by
-  cases l <;> simp [toolAlignNat, toolAlignByte, b3, UInt8.toNat_ofNat']
-
 theorem denseB_sound : ∀ (i : Nat) (as : List AttrRow), denseB i as = true → DenseFrom i as
   | _, [], _ => trivial
   | i, a :: as, h => by
     simp only [denseB, Bool.and_eq_true, beq_iff_eq] at h
     exact ⟨h.1, denseB_sound (i + 1) as h.2⟩
 
-theorem relReadableB_sound (l : Layout) (d : DbContent) (r : ClassRow) (h : relReadableB l d r = true) : RelReadable l d r := by
-  simp only [relReadableB, Bool.and_eq_true, Bool.or_eq_true, all_eq_true, beq_iff_eq, Bool.not_eq_true'] at h
-  obtain ⟨⟨h1, h2⟩, h3⟩ := h
-  refine ⟨denseB_sound 0 _ h1, ?_, ?_⟩
-  · intro a ha
-    have := h2 a ha
-    rw [toolAlignNat_eq] at this
-    exact this
-  · intro he pages hp
-    rcases h3 with h3 | h3
-    · rw [he] at h3; simp at h3
-    · rw [hp] at h3
-      simpa using h3
+theorem relReadableB_sound (d : DbContent) (r : ClassRow) (h : relReadableB d r = true) : RelReadable d r :=
+  ⟨denseB_sound 0 _ h⟩
 
-theorem firstFiveB_eq (live : List AttrRow) : firstFiveB live = firstFiveOK live := rfl
+theorem storageOKB_sound (a : AttrRow) (h : storageOKB a = true) : StorageOK a := by
+  simp only [storageOKB, Bool.or_eq_true, beq_iff_eq] at h
+  rcases h with ((h | h) | h) | h
+  · exact Or.inl h
+  · exact Or.inr (Or.inl h)
+  · exact Or.inr (Or.inr (Or.inl h))
+  · exact Or.inr (Or.inr (Or.inr h))
 
 theorem schemaOKB_sound (l : Layout) (att : HeapOf AttrRow) (ver : Nat) (h : schemaOKB l att ver = true) : SchemaOK l att ver := by
-  simp only [schemaOKB, Bool.or_eq_true, Bool.and_eq_true, decide_eq_true_eq, beq_iff_eq, bne_iff_ne, ne_eq, firstFiveB_eq] at h
-  rcases h with (⟨h1, h2⟩ | ⟨⟨h1, h2⟩, h3⟩) | ⟨h1, h2⟩
+  simp only [schemaOKB, Bool.or_eq_true, Bool.and_eq_true, decide_eq_true_eq, beq_iff_eq, all_eq_true] at h
+  rcases h with ((⟨h1, h2⟩ | ⟨⟨h1, h2⟩, h3⟩) | ⟨⟨h1, h2⟩, h3⟩) | ⟨h1, h2⟩
   · exact Or.inl ⟨h1, h2⟩
   · exact Or.inr (Or.inl ⟨h1, h2, h3⟩)
-  · refine Or.inr (Or.inr ⟨h1, ?_⟩)
-    rcases h2 with ⟨h2, h3⟩ | ⟨h2, h3⟩
-    · exact Or.inl ⟨h2, h3⟩
-    · refine Or.inr ⟨h2, ?_⟩
-      intro a ha
-      rw [ha] at h3
-      simpa using h3
+  · exact Or.inr (Or.inr (Or.inl ⟨h1, h2, h3⟩))
+  · exact Or.inr (Or.inr (Or.inr ⟨h1, fun a ha => storageOKB_sound a (h2 a ha)⟩))
 
 theorem dumpableB_sound (l : Layout) (d : DbContent) (o : Options) (h : dumpableB l d o = true) : DbDumpable l d o := by
   simp only [dumpableB, Bool.and_eq_true, all_eq_true, Bool.or_eq_true, Bool.not_eq_true', bne_iff_ne, ne_eq,
@@ -63,7 +50,7 @@ theorem dumpableB_sound (l : Layout) (d : DbContent) (o : Options) (h : dumpable
       rcases h4 with (h4 | h4) | h4
       · rw [hlo] at h4; cases h4
       · exact absurd h4 hne
-      · exact relReadableB_sound l d r h4
+      · exact relReadableB_sound d r h4
 
 /-- **The run-time check is sound**: a cluster and options for which `dumpHypB` says `true` satisfy the `DbDumpable`
 hypothesis of `C01_dump`. -/
